@@ -53,6 +53,11 @@ impl Partition {
     // Partition::add_persisted_segment (partitions/segments.rs): Segment::create + persist + push + sort_by start_offset.
     // Proved in unit `retention` ([C14.off.add.last], [C14.shape.add.err], [C14.shape.add.frame], [C14.off.create.start]):
     // for a SORTED vector and a start offset above every existing one the new empty open segment lands last, prefix unchanged.
+    // The Ok clause is split in two. (1) what is a fact about the extracted text — LINKED: unit retention proves exactly the `requires`,
+    // the Err clause and the first Ok clause of the real function (units/retention/lemmas.rs, harness
+    // [C14.link.offsets.add_persisted_segment]; an edit here has to be mirrored there). (2) what additionally rests on A-io of
+    // `Segment::persist` (a successful persist leaves all handles open on two EMPTY files) — retention's Segment has opaque handles and
+    // cannot state it: still ASSUMED.
     #[verifier::external_body]
     pub fn add_persisted_segment(&mut self, start_offset: u64) -> (r: Result<(), IggyError>)
         requires forall|i: int| 0 <= i < old(self).segments@.len() ==> (#[trigger] old(self).segments@[i]).start_offset < start_offset,
@@ -62,12 +67,15 @@ impl Partition {
             r is Ok ==> {
                 &&& final(self).segments@.len() == old(self).segments@.len() + 1
                 &&& forall|i: int| 0 <= i < old(self).segments@.len() ==> final(self).segments@[i] == old(self).segments@[i]
-                &&& seg_wf(last_seg(final(self))) && last_seg(final(self)).start_offset == start_offset
-                &&& seg_msgs(last_seg(final(self))).len() == 0 && last_seg(final(self)).size_bytes == 0
+                &&& last_seg(final(self)).start_offset == start_offset
+                &&& last_seg(final(self)).current_offset == start_offset && !last_seg(final(self)).is_closed
+                &&& last_seg(final(self)).size_bytes == 0
                 &&& last_seg(final(self)).unsaved_messages is None
                 &&& last_seg(final(self)).last_index_position == 0
                 &&& *final(self) == (Partition { segments: final(self).segments, segments_count_of_parent_stream: final(self).segments_count_of_parent_stream, ..*old(self) })
             },
+            // (2) A-io (Segment::persist): handles open, log and index files empty
+            r is Ok ==> seg_wf(last_seg(final(self))) && seg_msgs(last_seg(final(self))).len() == 0,
     { unimplemented!() }
 }
 
